@@ -136,6 +136,14 @@ Example C14_member_lookup_case_twins :
 Proof. vm_compute. repeat split. Qed.
 Print Assumptions C14_member_lookup_case_twins.
 
+(* PDF: the content type of an image XObject is decided by the last stage of its /Filter chain alone — a JPEG stored
+   behind Flate / ASCIIHex / ASCII85 / RunLength / LZW stages is labelled like a plain /DCTDecode one *)
+Theorem C14_pdf_codec_is_last_stage :
+  forall (tbl : list (str * str)) (pre : list str) (c : str),
+    pdf_codec (pre ++ [c]) = c /\ pdf_content_type tbl (pre ++ [c]) = pdf_content_type tbl [c].
+Proof. intros tbl pre c. exact (conj (pdf_codec_last pre c) (pdf_content_type_last tbl pre c)). Qed.
+Print Assumptions C14_pdf_codec_is_last_stage.
+
 (* ================= 2. header sniffers ================= *)
 Open Scope Z_scope.
 
